@@ -11,7 +11,7 @@ from mc import sched
 F = pg.symbolic
 P = pg.coding.CodePermission
 FILES = ('core/utils/thread_local.py', 'core/symbolic/flags.py', 'core/utils/contextual.py', 'core/detouring/class_detour.py',
-         'core/coding/permissions.py', 'core/hyper/dynamic_evaluation.py')
+         'core/coding/permissions.py', 'core/hyper/dynamic_evaluation.py', 'core/utils/timing.py')
 
 
 class Boom(Exception):
@@ -114,6 +114,24 @@ def timeit_enter(name):
   return pg.timeit(name)
 
 
+def timeit_observe():
+  """Names of the timing scopes this thread is inside (outer -> inner), via a probe scope's status keys."""
+  with pg.timeit('probe') as probe:
+    pass
+  chain = []
+  cur = getattr(probe, '_parent', None)
+  while cur is not None:
+    chain.append(cur.name)
+    cur = getattr(cur, '_parent', None)
+  top = pg.utils.thread_local_get('__timing_context__', None)
+  now = top.name if top is not None else None
+  return (tuple(reversed(chain)), now)
+
+
+def timeit_model(stack):
+  return (tuple(stack), stack[-1] if stack else None)
+
+
 _FMT_PROBE = pg.Dict(a=1)
 
 
@@ -164,7 +182,7 @@ def catalogue():
       Mgr('detour', detour_enter, ((('DA', 'DB'),), (('DB', 'DC'),), (('DA', 'DC'),)), detour_observe, detour_model, 'DA'),
       Mgr('dynamic_evaluate(per_thread)', lambda a: pg.hyper.dynamic_evaluate(_tagged(a), per_thread=True), ('f1', 'f2'),
           dyn_observe, innermost('placeholder'), 'placeholder'),
-      Mgr('timeit', timeit_enter, ('t1', 't2'), lambda: None, None, None),
+      Mgr('timeit', timeit_enter, ('t1', 't2'), timeit_observe, timeit_model, ((), None)),
   ]
 
 
@@ -358,6 +376,7 @@ THREAD_PROGRAMS = [
     ('(X)(X)', [('str_format', 0, False), ('dynamic_evaluate(per_thread)', 0, False)]),
     ('(X(X))', [('allow_writable_accessors', 1, False), ('track_origin', 0, True)]),
     ('(X(X))', [('coding.permission', 2, False), ('coding.permission', 1, False)]),
+    ('(X(X))', [('timeit', 0, False), ('timeit', 1, True)]),
 ]
 
 
@@ -369,7 +388,7 @@ def thread_assign(prog, mgrs):
 def thread_item(rec, item):
   pi, pj, prefix, bound, mode = item
   progs = [THREAD_PROGRAMS[pi], THREAD_PROGRAMS[pj]]
-  mgrs = [m for m in CATALOGUE if m.name != 'view_options' and m.name != 'timeit']
+  mgrs = [m for m in CATALOGUE if m.name != 'view_options']
   if mode == 'lines':
     # statement-level exploration: only the managers the two programs use are observed (every observation is traced code)
     used = {n for p in progs for n, _, _ in p[1]}
@@ -471,14 +490,14 @@ def run(ctx):
               'transitive), and after every exit the observation vector of ALL managers equals the one taken before the matching '
               'enter; process-wide managers: restoration only; (b) two threads running such programs: every interleaving at event '
               'granularity (enter / observe / exit) and every schedule with <= 1 preemption at statement granularity inside the '
-              'thread-local, flags, contextual, detour, permission, formatting and dynamic-evaluation modules: each thread observes '
+              'thread-local, flags, contextual, detour, permission, formatting, timing and dynamic-evaluation modules: each thread observes '
               'exactly what it observes alone; distinct_nontrivial = passing programs + distinct passing schedules')
   items = [(i, i, ctx.tier) for i in range(n)] + [(i, j, ctx.tier) for i in range(n) for j in range(i + 1, n)
                                                   if 'view_options' not in (CATALOGUE[i].name, CATALOGUE[j].name) or ctx.thorough]
   ctx.pmap(seq_item, items, chunk=1)
   ctx.pmap(pw_item, [0], chunk=1)
   ctx.note('managers', [m.name for m in CATALOGUE] + [m.name for m in process_wide()])
-  pairs = [(0, 1), (2, 3), (4, 5), (6, 7), (7, 1)] if not ctx.thorough else \
+  pairs = [(0, 1), (2, 3), (4, 5), (6, 7), (7, 1), (8, 8)] if not ctx.thorough else \
       [(i, j) for i in range(len(THREAD_PROGRAMS)) for j in range(i, len(THREAD_PROGRAMS))]
   tot = 0
   for pi, pj in pairs:
@@ -487,7 +506,7 @@ def run(ctx):
   ctx.states += len(items) + tot
   ctx.note('thread_schedules', tot)
   ctx.sample(dict(shape='(X(X)(X))', program='as_sealed(True){ as_sealed(None)!; as_sealed(False) }', meaning='! = left by exception'))
-  ctx.assumptions += ['2 threads; 3-4 threads are not explored', 'view_options and timeit are observed behaviourally / model-free only']
+  ctx.assumptions += ['2 threads; 3-4 threads are not explored', 'view_options is observed behaviourally / model-free only; timing scopes are observed through a probe scope']
 
 
 def replay(rec, data):
